@@ -1,7 +1,7 @@
 // C++-interface twin of capi_driver.c for the scenarios engine_driver.cpp cannot express: rules whose VALUE has an arbitrary
 // shape (zero length, one byte, all NUL, 4 KiB) and whose isResultValid answer is scripted.  Same scenario language and
 // the same output lines as capi_driver.c in `hexvalues 1` mode (values are printed as hex, "EMPTY" for the empty one):
-//   name, rule <k> obs= req= follow= disc=, set, db, schema, restart, build <k>            (synchronous completion only)
+//   name, rule <k> obs= req= follow= br=<slot>:<a,b>:<c,d> disc=, set, db, schema, restart, build <k>      (synchronous completion only)
 //   shape <k> <0 default 16 bytes | 1 empty | 2 one byte | 3 all NUL, 1..20 bytes | 4 4096 bytes>
 //   validret <k> <0|1>      isResultValid of rule k answers (stamp still current) && <b>
 //   hexvalues 1             (ignored here: always on)
@@ -19,7 +19,7 @@
 using namespace llbuild;
 using namespace llbuild::core;
 
-struct RuleDef { bool obs = true; std::vector<int> req, follow, disc; };
+struct RuleDef { bool obs = true; std::vector<int> req, follow, disc, brA, brB; int brslot = -1; };
 static std::map<int, RuleDef> g_pending, g_defs;
 static std::map<int, uint64_t> g_env;
 static std::map<int, int> g_shape, g_validret;
@@ -60,16 +60,21 @@ static void ev(const char* fmt, ...) {
 }
 
 struct DTask : Task {
-  int k; RuleDef d; std::vector<Val> slots; std::vector<int> slotkey;
+  int k; RuleDef d; std::vector<Val> slots; std::vector<int> slotkey; bool branched = false;
+  void req(TaskInterface ti, int r) { size_t id = slots.size(); slots.push_back(Val()); slotkey.push_back(r); ti.request(kname(r), id); }
   DTask(int k) : k(k), d(g_defs[k]) {}
   void start(TaskInterface ti) override {
     ev("start %d", k);
-    for (int r : d.req) { size_t id = slots.size(); slots.push_back(Val()); slotkey.push_back(r); ti.request(kname(r), id); }
+    for (int r : d.req) req(ti, r);
     for (int r : d.follow) ti.mustFollow(kname(r));
   }
-  void provideValue(TaskInterface, uintptr_t id, const KeyType& key, const ValueType& v) override {
+  void provideValue(TaskInterface ti, uintptr_t id, const KeyType& key, const ValueType& v) override {
     ev("provide %d %lu %d %s", k, (unsigned long)id, kid(key.str()), xs(v).c_str());
     if (id < slots.size()) slots[id] = dec(v);
+    if (!branched && d.brslot >= 0 && (int)id == d.brslot && d.brslot < (int)d.req.size()) {
+      branched = true;
+      for (int r : (slots[id].p % 2 == 0 ? d.brA : d.brB)) req(ti, r);
+    }
   }
   void inputsAvailable(TaskInterface ti) override {
     ev("avail %d", k);
@@ -144,6 +149,7 @@ int main(int argc, char** argv) {
         auto eq = t[i].find('='); std::string a = t[i].substr(0, eq), b = eq == std::string::npos ? "" : t[i].substr(eq + 1);
         if (a == "obs") d.obs = b == "1"; else if (a == "req") d.req = ints(b); else if (a == "follow") d.follow = ints(b);
         else if (a == "disc") d.disc = ints(b);
+        else if (a == "br") { SV p = split(b, ':'); d.brslot = atoi(p[0].c_str()); d.brA = ints(p.size() > 1 ? p[1] : ""); d.brB = ints(p.size() > 2 ? p[2] : ""); }
         else if (a == "sig") { if (b != "0") printf("UNSUPPORTED sig\n"); }
         else printf("UNSUPPORTED %s\n", a.c_str());
       }
@@ -152,7 +158,7 @@ int main(int argc, char** argv) {
     else if (t[0] == "set") g_env[atoi(t[1].c_str())] = strtoull(t[2].c_str(), 0, 10);
     else if (t[0] == "shape") g_shape[atoi(t[1].c_str())] = atoi(t[2].c_str());
     else if (t[0] == "validret") g_validret[atoi(t[1].c_str())] = atoi(t[2].c_str());
-    else if (t[0] == "hexvalues" || t[0] == "idbase") {}       // idbase: the C driver offsets its input ids and prints them without the offset
+    else if (t[0] == "hexvalues" || t[0] == "idbase" || t[0] == "ids") {}  // idbase / ids: the C driver chooses other input ids and prints the slot they stand for
     else if (t[0] == "db") { usedb = t[1] != "0"; if (t[1] == "1" && !started) unlink(dbpath.c_str()); }
     else if (t[0] == "schema") schema = (uint32_t)strtoul(t[1].c_str(), 0, 10);
     else if (t[0] == "restart") { newengine(usedb); started = true; printf("restart\n"); }
